@@ -33,6 +33,7 @@ Definition mscale (u : wunit) : Qc :=
 (* ---------------------------------------------------------------- spectra *)
 Record spectrum := mkS { wave : list Qc; value : list Qc; wu : wunit; vu : vunit }.
 
+Definition qc_is0 (x : Qc) : bool := match Qnum x with Z0 => true | _ => false end.
 Definition qleb (a b : Qc) : bool := Qle_bool a b.
 Definition qltb (a b : Qc) : bool := negb (Qle_bool b a).
 Definition qmin (a b : Qc) : Qc := if qleb a b then a else b.
@@ -71,14 +72,15 @@ Fixpoint diffs (w : list Qc) : list Qc :=          (* np.diff *)
 Definition lmin (l : list Qc) : result Qc :=
   match l with [] => Err ValueError | x :: t => Ok (fold_left qmin t x) end.
 
-(* numeric sampling: only positive steps are in the modelled domain (0 raises OverflowError,
-   negative values give ValueError or a one-point grid in the source; never generated) *)
+(* numeric sampling: any non-zero number is taken as it is (a negative one gives a negative ratio below);
+   0 is outside the modelled domain: (max-min)/0 is inf -> OverflowError, or nan -> ValueError when the
+   range is 0 too; the model answers ValueError and the tie only uses the 0/0 case *)
 Definition sampling_of (w1 w2 : list Qc) (m : sampling) : result Qc :=
   match m with
   | SMin => rbind (lmin (diffs w1)) (fun d1 => rbind (lmin (diffs w2)) (fun d2 => Ok (qmin d1 d2)))
   | SLeft => lmin (diffs w1)
   | SRight => lmin (diffs w2)
-  | SNum d => if qltb 0 d then Ok d else Err ValueError
+  | SNum d => if qc_is0 d then Err ValueError else Ok d
   end.
 
 (* ---------------------------------------------------------------- numpy.linspace(a, b, num + 1) *)
@@ -139,7 +141,6 @@ Inductive binop := OAdd | OSub | OMul | ODiv | OPow.
    inputs (non-integer exponent) and is therefore not modelled *)
 Inductive xval := XQ (x : Qc) | XNonFinite | XUnmodelled.
 
-Definition qc_is0 (x : Qc) : bool := match Qnum x with Z0 => true | _ => false end.
 Definition is_int (x : Qc) : bool := Pos.eqb (Qden x) 1.
 (* integer exponents; beyond |n| = 1024 floats overflow/underflow for all but trivial bases: not modelled *)
 Definition qpow_z (x : Qc) (n : Z) : xval :=
@@ -162,7 +163,9 @@ Definition common_grid (w1 w2 : list Qc) (m : sampling) : result (list Qc) :=
   let mn := qmin (wmin w1) (wmin w2) in
   let mx := qmax (wmax w1) (wmax w2) in
   rbind (sampling_of w1 w2 m) (fun dw =>
-  Ok (linspace mn mx (qceil ((mx - mn) / dw)))).
+  let num := qceil ((mx - mn) / dw) in
+  (* np.linspace(minwave, maxwave, num + 1): "Number of samples, -k, must be non-negative" *)
+  if (num + 1 <? 0)%Z then Err ValueError else Ok (linspace mn mx num)).
 
 Definition core (o : binop) (w1 v1 w2 v2 : list Qc) (m : sampling) (f : fillv)
   : result (list Qc * list xval) :=
@@ -208,6 +211,65 @@ Definition dunder (o : binop) (s : spectrum) (other : operand) : result rspectru
 (* x (op) s for a non-Spectrum x: the class only defines __rmul__ = __mul__ *)
 Definition rdunder (o : binop) (s : spectrum) (other : operand) : result rspectrum :=
   match o with OMul => dunder OMul s other | _ => Err TypeError end.
+
+(* ---------------------------------------------------------------- the public entry points with ALL their arguments
+   s.add / subtract / multiply / divide / power (other, sampling=..., method=..., fill_value=...):
+   which argument forms are accepted, which are refused and with which exception, in the order the code meets them. *)
+(* method: the three documented kinds, or a name scipy's interp1d does not know *)
+Inductive meth := MLinear | MQuadratic | MCubic | MUnknown.
+(* sampling: a valid form, a string other than 'min'/'left'/'right' (np.isscalar: returned as it is, the division
+   of the range by it raises TypeError), or anything else - None, tuple, list, array ('Unknown sampling method') *)
+Inductive sampling_arg := AOk (m : sampling) | ABadStr | ABadOther.
+
+(* interp1d(spectrum.wave, spectrum.value, kind=method) inside Spectrum.sample: an unknown kind is refused before
+   anything else (NotImplementedError); a spline of order k needs k + 1 samples ("The number of derivatives at
+   boundaries does not match"); the linear kind accepts a single sample *)
+Definition meth_min_points (mt : meth) : nat :=
+  match mt with MLinear => 1 | MQuadratic => 3 | MCubic => 4 | MUnknown => 0 end.
+Definition interp_ctor (mt : meth) (w : list Qc) : result unit :=
+  match mt with
+  | MUnknown => Err NotImplementedErr
+  | _ => if Nat.leb (meth_min_points mt) (length w) then Ok tt else Err ValueError
+  end.
+(* spline kinds: the values inside an operand's range are scipy's (not modelled); where NEITHER operand is
+   defined the result is the operator applied to the two fill values, whatever the kind *)
+Definition spline_vals (o : binop) (w1 w2 : list Qc) (f : fillv) (grid : list Qc) : list xval :=
+  map (fun x => if inrange w1 x || inrange w2 x then XUnmodelled else apply o (fill_at f w1 x) (fill_at f w2 x)) grid.
+
+(* the arguments are met in this order: sampling (its form, then its value and the sample count it gives), then
+   the interpolation kind with the left and with the right operand *)
+Definition spec_call_args (mt : meth) (o : binop) (s1 s2 : spectrum) (a : sampling_arg) (f : fillv)
+  : result rspectrum :=
+  let s2' := conv s2 (wu s1) in
+  match a with
+  | ABadOther => Err ValueError                   (* _sampling: 'Unknown sampling method' *)
+  | ABadStr => Err TypeError                      (* (maxwave - minwave) / 'foo' *)
+  | AOk m =>
+    match mt with
+    | MLinear => spec_op o s1 s2 m f
+    | _ =>
+      rbind (common_grid (wave s1) (wave s2') m) (fun grid =>
+      rbind (interp_ctor mt (wave s1)) (fun _ =>
+      rbind (interp_ctor mt (wave s2')) (fun _ =>
+      Ok (mkR grid (spline_vals o (wave s1) (wave s2') f grid) (wu s1) (vu s1)))))
+    end
+  end.
+Definition spec_call (mt : meth) (o : binop) (s1 s2 : spectrum) (a : sampling_arg) (f : fillv)
+  : result rspectrum :=
+  match wave s1, wave (conv s2 (wu s1)) with
+  | [], _ | _, [] => Err ValueError                 (* s.wave.min() of an empty array, before anything else *)
+  | _, _ => spec_call_args mt o s1 s2 a f
+  end.
+
+(* the named methods: sampling, method and fill_value are looked at ONLY for a Spectrum operand *)
+Definition method_call (mt : meth) (o : binop) (s : spectrum) (other : operand) (a : sampling_arg) (f : fillv)
+  : result rspectrum :=
+  match other with
+  | PScalar c => Ok (scalar_op o s c)
+  | PVector l => vector_op o s l
+  | PSpectrum s2 => spec_call mt o s s2 a f
+  | POther => Err TypeError
+  end.
 
 (* the result re-expressed in another wavelength unit (valueunit None) *)
 Definition rto (r : rspectrum) (u : wunit) : rspectrum :=
